@@ -487,7 +487,7 @@ func boundedValue(c *Ctx, fn *ssa.Function, v ssa.Value, at *ssa.BasicBlock, dep
 				continue
 			}
 			n++
-			args := callCommon(s.Instr).Args
+			args := fullArgs(s.Instr) // (receiver first, also for a call through an interface)
 			if idx >= len(args) {
 				return false, ""
 			}
